@@ -200,6 +200,25 @@ static std::vector<Scenario> make_scenarios(bool thorough) {
             };
             free_fn("H2.rejected-calls.t2", {bad(0), bad(1)}, 2);
         }
+        // both threads READ the same input arrays (arguments are const references: sharing them between threads is legal)
+        {
+            Scenario sc;
+            sc.name = "H2.shared-inputs.t2";
+            auto xc = std::make_shared<arr_cmplx>();
+            auto xr = std::make_shared<arr_real>();
+            sc.setup = [xc, xr] {
+                *xc = cletter(24, 181);
+                *xr = rletter(30, 182);
+            };
+            auto prog = [xc, xr](int v) {
+                return std::vector<Op>{Op{"ifft(shared x)", [xc] { return H(ifft(*xc)); }}, Op{"fft(shared x)", [xc] { return H(fft(*xc)); }},
+                                       Op{"rfft/hilbert(shared r)", [xr] { return mix(H(rfft(*xr)), H(hilbert(*xr))); }},
+                                       Op{v ? "xcorr/sort(shared r)" : "resample/welch(shared r)", [xr, v] { return v ? mix(H(xcorr(*xr, *xr)), H(sort(*xr).first)) : mix(H(resample(*xr, 3, 2)), H(welch(*xr, 8).pxx)); }}};
+            };
+            sc.prog = {prog(0), prog(1)};
+            sc.bound = 2;
+            S.push_back(sc);
+        }
         free_fn("H2.kaiser-fir1.t2",
                 {{Op{"kaiser", [] { return H(window::kaiser(16, 5.0)); }}, Op{"fir1", [] { return H(fir1(12, 0.3)); }}},
                  {Op{"kaiser", [] { return H(window::kaiser(9, 2.0)); }},
